@@ -1,13 +1,14 @@
 import BlobfinderModel.Model.Proto
 import BlobfinderModel.Model.Crop
 import BlobfinderModel.Model.Blocks
+import BlobfinderModel.Model.Eval
 /-
 Model driver for the correlation pipeline (crop, blocks, evaluation ...).
 One operation per input line, one result line per operation.
 -/
 open Proto Model
 
-def range (n : Int) : List Int := (List.range n.toNat).map (fun (k : Nat) => (k : Int))
+def range (n : Int) : List Int := irange n
 
 def opCropPixel (ws : List String) : String :=
   match ints? ws with
@@ -63,6 +64,60 @@ def opBufCount (ws : List String) : String :=
     toString (Gen.get_buf_count c n itemsize limit)
   | _ => "bad-op"
 
+def optRat : Option Rat → String
+  | none => "inf"
+  | some r => showRat r
+
+/-- `conv kind h w <h*w mask> <h*w data>` -> the h*w values of the correlation map (exact) -/
+def opConv (ws : List String) : String :=
+  match ws with
+  | kind :: h :: w :: rest =>
+    match h.toInt?, w.toInt?, rats? rest with
+    | some h, some w, some vals =>
+      let n := (h * w).toNat
+      if vals.length ≠ 2 * n ∨ h ≤ 0 ∨ w ≤ 0 then "bad-op" else
+      let ma := (vals.take n).toArray
+      let da := (vals.drop n).toArray
+      joinRats (flat (corrMap kind (img ma w) (img da w) h w) h w)
+    | _, _, _ => "bad-op"
+  | _ => "bad-op"
+
+/-- `evaluate h w <h*w values>` -> `cy cx height ry rx elev2` (window relative, exact) -/
+def opEvaluate (ws : List String) : String :=
+  match ws with
+  | h :: w :: rest =>
+    match h.toInt?, w.toInt?, rats? rest with
+    | some h, some w, some vals =>
+      if vals.length ≠ (h * w).toNat ∨ h ≤ 0 ∨ w ≤ 0 then "bad-op" else
+      let a := vals.toArray
+      let r := evaluate (img a w) h w
+      s!"{r.cy} {r.cx} {showRat r.height} {showRat r.ry} {showRat r.rx} {optRat r.elev2}"
+    | _, _, _ => "bad-op"
+  | _ => "bad-op"
+
+/-- `logarg which <values>`: argument of the logarithm for every value (min over the given values) -/
+def opLogArg (ws : List String) : String :=
+  match ws with
+  | which :: rest =>
+    match rats? rest with
+    | some (v :: vs) =>
+      let mn := minList (v :: vs)
+      if which = "frame" then joinRats ((v :: vs).map fun x => Gen.log_arg x mn)
+      else if which = "crop" then joinRats ((v :: vs).map fun x => Gen.cropbuf_log_arg x (Gen.cropbuf_m mn))
+      else "bad-op"
+    | _ => "bad-op"
+  | _ => "bad-op"
+
+def opShift (ws : List String) : String :=
+  match ints? ws with
+  | some [v, anchor, c] => s!"{Gen.shift v anchor c} {Gen.unshift v anchor c}"
+  | _ => "bad-op"
+
+def opUsGeom (ws : List String) : String :=
+  match ints? ws with
+  | some [us] => s!"{Gen.us_region us} {Gen.us_dftshift (Gen.us_region us)}"
+  | _ => "bad-op"
+
 def step (line : String) : String :=
   match words line with
   | "crop_pixel" :: ws => opCropPixel ws
@@ -70,6 +125,11 @@ def step (line : String) : String :=
   | "pyslice" :: ws => opPySlice ws
   | "schedule" :: ws => opSchedule ws
   | "bufcount" :: ws => opBufCount ws
+  | "conv" :: ws => opConv ws
+  | "evaluate" :: ws => opEvaluate ws
+  | "logarg" :: ws => opLogArg ws
+  | "shift" :: ws => opShift ws
+  | "usgeom" :: ws => opUsGeom ws
   | _ => "bad-op"
 
 def main : IO Unit := run step
